@@ -17,9 +17,10 @@ NotifsA == {[p |-> 1, v |-> <<3>>]}
 OpsQuick == {Op("set", 1, I(9)), Op("set", 1, I(256)), Op("getstate", 1, NoV), Op("getstate", 2, NoV)}
 OpsMore == {Op("set", 3, I(1)), Op("read", 2, NoV), Op("set", 0, I(1)), Op("store", 1, NoV), Op("get", 1, NoV)}
 \* without two outstanding queries of the same command (what the code as it is cannot serve)
-OpsAsIs  == OpsQuick \cup OpsMore \cup {Op("getstate", 2, NoV), Op("getdefault", 2, NoV), Op("store", 2, NoV)}
+OpsAsIs  == OpsQuick \cup {Op("set", 3, I(1)), Op("read", 2, NoV), Op("set", 0, I(1)), Op("get", 1, NoV), Op("getdefault", 2, NoV)}
 OpsThorough == OpsQuick \cup OpsMore \cup {Op("set", 2, I(4)), Op("read", 1, NoV), Op("getstate", 2, NoV), Op("clear", 1, NoV),
                               Op("getdefault", 2, NoV), Op("getdefault", 1, NoV), Op("set", 1, N(1))}
+OpsT3 == OpsQuick \cup {Op("read", 2, NoV), Op("store", 1, NoV)}
 OpsShots == {Op("getstate", 1, NoV), Op("getstate", 2, NoV), Op("store", 1, NoV), Op("getdefault", 2, NoV),
              Op("getdefault", 1, NoV)}
 OpsShots4 == {Op("getstate", 1, NoV), Op("getstate", 2, NoV), Op("store", 1, NoV), Op("set", 1, I(9))}
